@@ -61,6 +61,20 @@ func c05load(g *Gen, i int, path string, files map[string]string, names []string
 	if err := b.AddDir(path); err != nil {
 		return nil, err
 	}
+	if c05twice {
+		// requested once more, into the universe that already holds it (Context.AddDir / AddDirectory)
+		u, err := b.FindTypes()
+		if err != nil {
+			return nil, err
+		}
+		if err := b.AddDirTo(path, &u); err != nil {
+			return nil, err
+		}
+		if _, err := b.AddDirectoryTo(path, &u); err != nil {
+			return nil, err
+		}
+		return u, nil
+	}
 	return b.FindTypes()
 }
 
